@@ -203,7 +203,7 @@ func checkC11(e *RunEnv) *CheckResult {
 	msgs := []string{"m", "fix: x", "a\tb", "two\nlines", "s\nthree word line", "\nbody three words here", "100% %s done", strings.Repeat("word ", 1000), strings.Repeat("seventy thousand ", 4200), " lead", "trail ", "é", "x: y: z", forgedJournalMessage}
 	spec := &Spec{
 		Seeds: []Seed{{"S0", seedS0()}, {"S2", seedS2()}, {"chain12", seedChain(12)}, {"chain140", seedChain(140)}},
-		Depth: e.pick(3, 4),
+		Depth: e.depth(3, 4),
 		Steps: func(n *Node) []Step {
 			a := n.Abs()
 			t := stateTags(a)
